@@ -118,7 +118,11 @@ func (f iteratorFunc) Current() NodeNavigator {
 // Evaluate returns the result of the expression.
 // The result type of the expression is one of the follow: bool,float64,string,NodeIterator).
 func (expr *Expr) Evaluate(root NodeNavigator) interface{} {
-	val := expr.q.Evaluate(iteratorFunc(func() NodeNavigator { return root }))
+	// Evaluate on a clone, as Select does: the compiled query tree holds iteration
+	// state and must stay untouched so that the expression can be evaluated again
+	// (and from several goroutines) with the same result.
+	q := expr.q.Clone()
+	val := q.Evaluate(iteratorFunc(func() NodeNavigator { return root }))
 	switch val.(type) {
 	case query:
 		return &NodeIterator{query: expr.q.Clone(), node: root}
